@@ -523,6 +523,30 @@ fn gen_chains(rng: &mut Rng, tier: Tier) -> Sc {
             let b = pairs[rng.below(pairs.len())][rng.below(2)];
             pairs.push([a, b]);
         }
+        // tails: a path of fresh labels leaving or entering a label that is already in use (a loop
+        // with a tail is the smallest input on which a chain can close before the pairs run out)
+        for _ in 0..rng.below(3) {
+            let at = pairs[rng.below(pairs.len())][rng.below(2)];
+            let len = 1 + rng.below(3);
+            if li + len >= labels.len() {
+                break;
+            }
+            let fresh: Vec<u32> = labels[li..li + len].to_vec();
+            li += len;
+            if rng.chance(0.5) {
+                let mut prev = at;
+                for &n in &fresh {
+                    pairs.push([prev, n]);
+                    prev = n;
+                }
+            } else {
+                let mut next = at;
+                for &n in &fresh {
+                    pairs.push([n, next]);
+                    next = n;
+                }
+            }
+        }
     }
     match rng.below(3) {
         0 => {}
@@ -573,6 +597,30 @@ fn is_non_branching(pairs: &[[u32; 2]]) -> bool {
         }
     }
     true
+}
+
+/// A label at which some chain starts or stops (without closing on itself there) although exactly
+/// one input pair arrives at it and exactly one leaves it.
+fn loose_unambiguous_end(pairs: &[[u32; 2]], chains: &[Vec<u32>]) -> Option<u32> {
+    let mut indeg: BTreeMap<u32, u32> = BTreeMap::new();
+    let mut outdeg: BTreeMap<u32, u32> = BTreeMap::new();
+    for p in pairs {
+        *outdeg.entry(p[0]).or_insert(0) += 1;
+        *indeg.entry(p[1]).or_insert(0) += 1;
+    }
+    let through = |v: u32| indeg.get(&v) == Some(&1) && outdeg.get(&v) == Some(&1);
+    for c in chains {
+        let (Some(&s), Some(&e)) = (c.first(), c.last()) else { continue };
+        if s != e {
+            if through(s) {
+                return Some(s);
+            }
+            if through(e) {
+                return Some(e);
+            }
+        }
+    }
+    None
 }
 
 /// Maximal paths and cycles of a non-branching pair list. Cycles are returned canonically
@@ -1305,6 +1353,11 @@ impl Property for C12 {
                             }
                             if short || want != got {
                                 out.push(Violation::new("chain-exactly-once", "indices::chained_indices", format!("consecutive pairs of the chains are not the input pairs exactly once each (input {} pairs, chains {:?})", pairs.len(), abbreviate_chains(chains)), &[vi]));
+                            } else if let Some(v) = loose_unambiguous_end(pairs, chains) {
+                                // holds for branching inputs too: a label with exactly one pair
+                                // arriving and exactly one leaving offers no choice, so no chain
+                                // may stop there unless it closes on itself there
+                                out.push(Violation::new("chain-not-maximal", "indices::chained_indices", format!("a chain stops at label {} although exactly one pair arrives there and exactly one leaves (chains {:?})", v, abbreviate_chains(chains)), &[vi]));
                             } else if nb {
                                 let (paths, cycles) = chain_model(pairs);
                                 if !cycles.is_empty() {
